@@ -54,6 +54,29 @@ class Args:
       self.shared[share] = (obj, snap)
     return obj
 
+  def scramble(self):
+    """the caller re-uses its own arrays / lists after the regions were built: overwrite them in place.  Returns the
+    descriptions of what was overwritten (tuples cannot be)."""
+    n_ = np()
+    done = []
+    seen = set()
+    for what, obj, snap in self.owned:
+      if id(obj) in seen:
+        continue
+      seen.add(id(obj))
+      if isinstance(obj, n_.ndarray):
+        obj[...] = obj*3 + 7
+        done.append(what + ' (ndarray)')
+      elif isinstance(obj, list):
+        for i, v in enumerate(obj):
+          if isinstance(v, list):
+            for j in range(len(v)):
+              v[j] = v[j]*3 + 7
+          else:
+            obj[i] = v*3 + 7
+        done.append(what + ' (list)')
+    return done
+
   def mutated(self):
     n_ = np()
     out = []
@@ -274,8 +297,14 @@ def check_vector(r, p_exact, p, x, reg, rng, z, where=''):
     out.append(fail(cls, 'not-member', '%s: project gives %s which violates the region by %.3g' % (desc, x.tolist(), v)))
   dres = float(((x - p)**2).sum())
   cf = closed_form(r, p)
-  if cf is not None and n_.abs(cf - x).max() > 1e-8*max(1.0, n_.abs(cf).max()):
-    out.append(fail(cls, 'not-nearest', '%s: project gives %s, the nearest point is %s' % (desc, x.tolist(), cf.tolist())))
+  tolf = float(documented_tol())
+  if cf is not None and n_.abs(cf - x).max() > tolf + 1e-11*max(1.0, n_.abs(cf).max()):
+    out.append(fail(cls, 'not-nearest', '%s: project gives %s, the nearest point is %s (differs by %.3g, documented tolerance %.3g)' % (
+      desc, x.tolist(), cf.tolist(), float(n_.abs(cf - x).max()), tolf)))
+  fd = fdisp(r, x)
+  if fd is not None and fd > tolf*(1 + 1e-3) + 1e-11*max(1.0, n_.abs(x).max()):
+    out.append(fail(cls, 'not-member', '%s: project gives %s which is still %.3g outside the region in some coordinate (documented tolerance %.3g)' % (
+      desc, x.tolist(), fd, tolf)))
   for _ in range(12):
     y = sample_member(r, rng, z)
     if y is None:
@@ -304,15 +333,41 @@ def check_vector(r, p_exact, p, x, reg, rng, z, where=''):
   return out
 
 
+def documented_tol():
+  """the tolerance the source documents: the class attribute `ConvexRegion.tol` of the base class (every region class is
+  held to it; a subclass quietly using another value is a deviation from the documented behaviour)."""
+  C.repo()
+  from device_kit import projection as P
+  return Fraction(P.ConvexRegion.tol)
+
+
+def expected_is_in(r, p_exact, tol):
+  """(verdict, decidable): `is_in` is documented as "the projection moves no coordinate by more than tol"; for the simple
+  classes that displacement is known exactly.  Within a relative 1e-6 of tol the verdict is left open (float rounding)."""
+  k = r['k']
+  if k == 'inter':
+    a, da = expected_is_in(r['a'], p_exact, tol); b, db = expected_is_in(r['b'], p_exact, tol)
+    return (a and b), (da and db)
+  disp = G.displacement(r, p_exact)
+  return disp <= tol, abs(disp - tol) > tol/10**6
+
+
+def fdisp(r, x):
+  """float: largest coordinate of the displacement that would bring x into a simple region."""
+  cf = closed_form(r, x)
+  return float(np().abs(cf - x).max()) if cf is not None else None
+
+
 def check_is_in(r, p_exact, p, reg, where=''):
   cls = CLSNAME[r['k']]
-  ve = G.violation(r, p_exact)
-  if ve != 0 and float(ve) <= 1e-6:
+  tol = documented_tol()
+  want, decidable = expected_is_in(r, p_exact, tol)
+  if not decidable:
     return []
   got = bool(reg.is_in(p))
-  if got != (ve == 0):
-    return [fail(cls, 'is_in', '%s%s region=%s: is_in(%s) = %s but the point %s a member (violation %s)' % (
-      where, cls, r, [fs(t) for t in p_exact], got, 'is' if ve == 0 else 'is not', fs(ve)))]
+  if got != want:
+    return [fail(cls, 'is_in', '%s%s region=%s: is_in(%s) = %s but the nearest member is %s away in some coordinate (documented tolerance %.3g: the point %s a member)' % (
+      where, cls, r, [fs(t) for t in p_exact], got, 'not' if G.violation(r, p_exact) == 0 else '> tol' if not want else '<= tol', float(tol), 'is' if want else 'is not'))]
   return []
 
 
@@ -353,15 +408,20 @@ class C18(Prop):
       out.append(self.one(rng, tier, rng.choice(kinds)))
     for _ in range(n_utils):
       out.append(self.one(rng, tier, 'utils'))
+    # long vectors: boxes are cheap, and vectorised fast paths hide behind length thresholds
+    for n in (65, 96, 65, 96):
+      out.append(self.one(rng, tier, 'cube', n=n))
+      out.append(self.one(rng, tier, 'device', n=n))
     return out
 
   def pick_n(self, rng, tier):
     return rng.randint(1, 6) if tier != 'thorough' else rng.choice(list(range(1, 13)) + [1, 2, 3, 4])
 
-  def one(self, rng, tier, kind):
+  def one(self, rng, tier, kind, n=None):
+    force_n = n
     case = {'kind': kind, 'seed': rng.randrange(1 << 30), 'tol': TOL, 'maxiter': 25}
     if kind in ('cube', 'halfspace', 'slice'):
-      n = self.pick_n(rng, tier)
+      n = force_n or self.pick_n(rng, tier)
       integer = rng.random() < 0.15
       p = G.gen_point(rng, n, integer=integer)
       mode = rng.choice(G.MODES)
@@ -426,7 +486,8 @@ class C18(Prop):
       case.update({'r': {'k': 'minter', 'a': ra, 'b': rb}, 'P': [G.L(row) for row in P], 'shape': [len(P), len(P[0])], '_int': False,
                    'z': [G.L(z) for z in zs]})
     elif kind == 'device':
-      d = gen.gen_leaf(rng, tier if tier != 'thorough' else 'thorough')
+      d = (gen.gen_leaf(rng, 'quick', ['Device', 'IDevice2', 'PVDevice', 'CDevice', 'GDevice', 'SDevice'], n=force_n) if force_n
+           else gen.gen_leaf(rng, tier if tier != 'thorough' else 'thorough'))
       if rng.random() < 0.3:
         # setter-then-project: the device is built with the bounds of `dev0`, then `device.bounds = …` is assigned
         d2 = gen.gen_leaf(rng, 'quick', [d['cls']], n=d['n'])
@@ -629,6 +690,16 @@ class C18(Prop):
     mut = args.mutated()
     if mut:
       out.append(fail(cls, 'ctor-arg-mutated', desc + ': the library wrote into a constructor argument owned by the caller: ' + '; '.join(mut)))
+    # the reverse direction: the caller overwrites its own arrays after construction; the region must not change
+    done = args.scramble()
+    if done:
+      try:
+        x_after = n_.array(reg.project(py_point(case)), dtype=float)
+        if x_after.shape != n_.array(x).shape or n_.abs(x_after - n_.array(x, dtype=float)).max() > 0:
+          out.append(fail(cls, 'aliases-caller-data', '%s: after the caller overwrote its own %s the same point projects to %s instead of %s' % (
+            desc, ', '.join(done), x_after.tolist(), n_.array(x).tolist())))
+      except Exception as e:
+        out.append(fail(cls, 'aliases-caller-data', '%s: after the caller overwrote its own %s project raised %s' % (desc, ', '.join(done), type(e).__name__)))
     return out
 
   def oracle_list(self, case, rng):
@@ -679,8 +750,10 @@ class C18(Prop):
           f['key']['cls'] = 'List'
       out += fs_
       allin = allin and G.violation(sub, line_exact) == 0
-    far = all(G.violation(sub, (P_exact[k] if r['axis'] == 0 else [row[k] for row in P_exact])) == 0 or
-              float(G.violation(sub, (P_exact[k] if r['axis'] == 0 else [row[k] for row in P_exact]))) > 1e-6 for k, sub in enumerate(r['rs']))
+    tol_ = documented_tol()
+    verdicts = [expected_is_in(sub, (P_exact[k] if r['axis'] == 0 else [row[k] for row in P_exact]), tol_) for k, sub in enumerate(r['rs'])]
+    allin = all(v for v, _ in verdicts)
+    far = all(d for _, d in verdicts)
     try:
       got_in = bool(reg.is_in(pt))
     except Exception as e:
@@ -691,6 +764,15 @@ class C18(Prop):
     mut = args.mutated()
     if mut:
       out.append(fail('List', 'ctor-arg-mutated', desc + ': the library wrote into a constructor argument owned by the caller: ' + '; '.join(mut)))
+    done = args.scramble()
+    if done:
+      try:
+        X_after = n_.array(reg.project(py_point(case)), dtype=float)
+        if X_after.shape != Xf.shape or n_.abs(X_after - Xf).max() > 0:
+          out.append(fail('List', 'aliases-caller-data', '%s: after the caller overwrote its own %s the same point projects to %s instead of %s' % (
+            desc, ', '.join(done), X_after.tolist(), Xf.tolist())))
+      except Exception as e:
+        out.append(fail('List', 'aliases-caller-data', '%s: after the caller overwrote its own %s project raised %s' % (desc, ', '.join(done), type(e).__name__)))
     if far and got_in is not None and got_in != allin:
       out.append(fail('List', 'is_in' if not case.get('_int') else 'int-dtype-truncation',
                       '%s: is_in = %s but the point %s a member' % (desc, got_in, 'is' if allin else 'is not')))
